@@ -5,6 +5,21 @@ import json, os, subprocess
 HERE = os.path.dirname(os.path.dirname(os.path.abspath(__file__)))
 
 CHECKS = {
+ "C12": dict(
+   category="exploration", design="DESIGN.md §5 C12",
+   technique="property-based testing against a by-construction reference: generated chain programs with external calls in every syntactic position x {safe, unsafe, fallback, disallowed}; call log (arguments, order, lines delivered) and output compared with the reference sequence",
+   text="Chain programs place calls to three externals before/inside/after lines, in strings, choice text and conditions, nested and through Ink functions, with unique arguments; the host stub logs every call with the number of lines delivered. Safe mode: log = reference with repeated contiguous blocks; unsafe: exact sequence, never before the preceding line is delivered, refused in strings; fallback and disallowed modes as the property states. Exploration only.",
+   note="Reference = source order along the single path of the chain program; values from a pure stub or the Ink fallback bodies."),
+ "C13": dict(
+   category="exploration", design="DESIGN.md §5 C13",
+   technique="property-based testing against an exactly-once model: generated chain programs with planted, uniquely identifiable warning/error sites x reactive host (continue, choose, reset, redirect) x {handler, no handler}",
+   text="Warning and error sites of six kinds are planted before, inside and after lines and in choice bodies; every message must reach the handler (or the Err result / readable lists) exactly once per play-through, with the right type, never again on later continues; an error stops the story until reset/redirect; reset clears both lists. Exploration only.",
+   note="Sites are recognised by the variable name or knot path in the runtime's message; any message no site explains is reported."),
+ "C15": dict(
+   category="fault_enumeration", design="DESIGN.md §5 C15",
+   technique="fuzzing by structural and textual mutation of valid story documents and saves (proptest-driven, tape-shrunk), exhaustive truncation of small documents, both loaders, in worker processes with crash attribution; oracle: Ok/Err without panic/abort/overflow, bounded fuelled play of accepted stories, reset-after-failed-load equals fresh",
+   text="Corruptions of corpus stories, compiled generated programs and saves taken at explored points (tree mutations, numeric extremes, near-miss keys, truncation at every byte of small documents, nesting bombs to depth 100000, byte flips, invalid UTF-8) are fed to Story::new and load_state under the default and the streaming loader in separate processes with 8 MiB stacks; every outcome must be Ok or Err. Fault enumeration: the truncation family is complete for small documents, the rest is sampled.",
+   note="A dying worker is re-run per in-flight document to attribute the crash; a wall-clock overrun is reported as inconclusive (exit 2). Loops in a document's own content are cut by fuel (also during construction via the construction-fuel hook) and not judged."),
  "C03": dict(
    category="exploration", design="DESIGN.md §5 C03",
    technique="property-based testing, self-differential: generated scenarios replayed twice in-process, in separate worker processes (fresh hash seeds) and under the release build; digests of compiled bytes, transcript, final view and canonical save must agree",
